@@ -75,10 +75,23 @@ func (x *xts) CryptBlocks(dst, src []byte) {
 			encryptSm4Xts(&x.b.enc[0], &x.tweak, dst, src)
 		}
 	} else {
-		if x.isGB {
-			decryptSm4XtsGB(&x.b.dec[0], &x.tweak, dst, src)
-		} else {
-			decryptSm4Xts(&x.b.dec[0], &x.tweak, dst, src)
-		}	
+		// The bulk loops of the assembly consume every whole group of four blocks, so with a
+		// partial last block (ciphertext stealing) they would take the full block that has to be
+		// processed together with it. Decrypt the leading whole blocks first in that case; the
+		// tweak is carried in x.tweak.
+		if tail := len(src) % BlockSize; tail != 0 && len(src) > 2*BlockSize {
+			n := len(src) - BlockSize - tail
+			x.decrypt(dst[:n], src[:n])
+			dst, src = dst[n:], src[n:]
+		}
+		x.decrypt(dst, src)
+	}
+}
+
+func (x *xts) decrypt(dst, src []byte) {
+	if x.isGB {
+		decryptSm4XtsGB(&x.b.dec[0], &x.tweak, dst, src)
+	} else {
+		decryptSm4Xts(&x.b.dec[0], &x.tweak, dst, src)
 	}
 }
